@@ -54,7 +54,33 @@ def on_vertex_sheets(desc, A, r):
     return True
 
 
-def compare_rel(ctx, clause, case, A, B, fx, rows=None, rtol=1e-9, atol=1e-9, skip_lost=True, desc=None):
+def off_sheet(optic, rec, rows_of):
+    """rays that leave the prescribed (vertex) sheet of some surface of `optic` in the trace `rec`: the recorded point
+    is not on the sag surface (other sheet of a hyperboloid, far half of a sphere, unconverged iterate)"""
+    from . import specgeom
+    bad = set()
+    surfs = optic.surface_group.surfaces
+    for j in rows_of:
+        if j >= len(surfs) or j >= rec['x'].shape[0]:
+            continue
+        g = surfs[j].geometry
+        name = type(g).__name__
+        if name == 'Plane':
+            continue
+        for r in range(rec['x'].shape[1]):
+            P = np.array([rec['x'][j, r], rec['y'][j, r], rec['z'][j, r]], dtype=float)
+            if not np.all(np.isfinite(P)):
+                continue
+            loc = specgeom.to_local(g.cs, P)
+            zt, _ = specgeom.shape(g, float(loc[0]), float(loc[1]))
+            tol = 1e-7 * max(1.0, abs(loc[0]), abs(loc[1])) if name == 'StandardGeometry' else 2e-5
+            if zt is None or abs(loc[2] - zt) > tol:
+                bad.add(r)
+    return bad
+
+
+def compare_rel(ctx, clause, case, A, B, fx, rows=None, rtol=1e-9, atol=1e-9, skip_lost=True, desc=None,
+                optics=None):
     """A, B record dicts; fx maps (field, value of A) -> expected value in B; rows = list of (rowA,rowB)"""
     if isinstance(A, tuple) or isinstance(B, tuple):
         if isinstance(A, tuple) != isinstance(B, tuple):
@@ -63,10 +89,22 @@ def compare_rel(ctx, clause, case, A, B, fx, rows=None, rtol=1e-9, atol=1e-9, sk
     nsA = A['x'].shape[0]
     rows = rows or [(j, j) for j in range(nsA)]
     outside = set()
+    if desc is not None and any(su.get('conic') == -1.0 for su in desc['surfaces']):
+        # paraboloids: the conic quadratic cancels for nearly axial rays (finding F23); a re-description changes the
+        # rounding, not the ray
+        rtol, atol = max(rtol, 1e-6), max(atol, 1e-6)
     if desc is not None:
         outside = {r for r in range(A['x'].shape[1]) if not on_vertex_sheets(desc, A, r)}
         if outside:
             ctx.count('rel: rays beyond |R|/2 on some surface (outside the domain)', len(outside))
+    if optics is not None:
+        # ... and in both descriptions every recorded point lies on the prescribed sheet (C02's domain)
+        o1, o2 = optics
+        rows_ = rows or [(j, j) for j in range(nsA)]
+        off = off_sheet(o1, A, [ja for ja, _ in rows_]) | off_sheet(o2, B, [jb for _, jb in rows_])
+        if off - outside:
+            ctx.count('rel: rays off the prescribed sheet in one description (outside the domain)', len(off - outside))
+        outside = outside | off
     for ja, jb in rows:
         for r in range(A['x'].shape[1]):
             if r in outside:
@@ -169,7 +207,7 @@ def t_dummy(ctx, rng, desc):
     n = len(desc['surfaces'])
     rows = [(j, j if j <= g else j + 1) for j in range(n)]
     compare_rel(ctx, 'dummy surface between equal media changes nothing downstream', case, A, B,
-                lambda f, v: v, rows=rows, rtol=1e-9, atol=1e-9, desc=desc)
+                lambda f, v: v, rows=rows, rtol=1e-9, atol=1e-9, desc=desc, optics=(o1, o2))
 
 
 def t_wavelength(ctx, rng, desc):
@@ -246,8 +284,11 @@ def t_scale(ctx, rng, desc):
     # with decentred surfaces the paraxial pupil (hence the launch) is not a scaled copy: launch scaled rays
     B = traced_explicit(o2, A, w, scale=s) if decentred else traced(o2, 0.0, Hy, px, py, w)
     tol = 1e-9 if conic_only else 2e-5
+    if any(su.get('conic') == -1.0 for su in desc['surfaces']):
+        tol = max(tol, 1e-6)      # paraboloids: the conic quadratic cancels for nearly axial rays (finding F23)
     compare_rel(ctx, 'scaling all lengths by s scales positions and paths by s, keeps direction cosines', case, A, B,
-                lambda f, v: v * s if f in ('x', 'y', 'z', 'opd') else v, rtol=tol, atol=tol * max(1.0, s), desc=desc)
+                lambda f, v: v * s if f in ('x', 'y', 'z', 'opd') else v, rtol=tol, atol=tol * max(1.0, s), desc=desc,
+                optics=(o1, o2))
     if decentred:
         return s
     try:
